@@ -36,7 +36,9 @@ pub struct Context<const N: usize> {
 
 impl<const N: usize> Context<N> {
     pub fn new(key: [u8; N], identity_keys: Vec<[u8; N]>, kind: CipherKind, user_manager: Option<Arc<ServerUserManager<N>>>) -> Self {
-        let nonce_cache = Mutex::new(LruCache::with_expiry_duration_and_capacity(Duration::from_secs(30), 102400));
+        // a salt has to be remembered for as long as its timestamp can still be accepted: a request
+        // stamped MAX_DIFF ahead of the clock stays acceptable for 2 * MAX_DIFF seconds
+        let nonce_cache = Mutex::new(LruCache::with_expiry_duration_and_capacity(Duration::from_secs(60), 102400));
         Self { key, identity_keys, kind, user_manager, nonce_cache }
     }
 
